@@ -45,6 +45,40 @@ def entries(A, mask, n, upper_only=True):
     return " ".join(toks)
 
 
+
+def guard_raw_cases(rng, thorough):
+    """is_transpose_pattern(A, C) with A given by raw arrays: a valid pattern M (C = M'), then A = M with one row index replaced so that an
+    entry is stored twice / the column is no longer sorted / the entry moved to another row (same nnz each time), plus the valid pair."""
+    L = []
+    def arrays(cols):
+        outer = [0]; inner = []
+        for col in cols:
+            inner += col; outer.append(len(inner))
+        return outer, inner
+    def line(r, c, cols, maskT):
+        outer, inner = arrays(cols)
+        patT = " ".join(("1" if maskT[a][b] else ".") for a in range(c) for b in range(r))
+        return f"csc.istpraw {r} {c} {len(inner)} {' '.join(map(str, outer))} {' '.join(map(str, inner))} {c} {r} {patT}".replace("  ", " ")
+    shapes = [(r, c) for r in range(1, 4) for c in range(1, 4)]
+    for (r, c) in shapes:
+        for bits in itertools.product([False, True], repeat=r * c):
+            M = [[bits[a * c + b] for b in range(c)] for a in range(r)]
+            cols = [[a for a in range(r) if M[a][b]] for b in range(c)]
+            MT = [[M[a][b] for a in range(r)] for b in range(c)]
+            L.append(line(r, c, cols, MT))
+            for b in range(c):
+                for t in range(len(cols[b])):
+                    for newrow in range(r):
+                        if newrow == cols[b][t]:
+                            continue
+                        c2 = [col[:] for col in cols]
+                        c2[b][t] = newrow          # duplicate, unsorted or moved entry; nnz unchanged
+                        L.append(line(r, c, c2, MT))
+    if not thorough:
+        keep = L[:400] + rng.sample(L[400:], min(len(L) - 400, 2600)) if len(L) > 3000 else L
+        L = keep
+    return L
+
 def make_cases(chk, rng):
     cases = []
     thorough = chk.thorough()
@@ -193,6 +227,9 @@ def make_cases(chk, rng):
             bt = [rng.random() < 0.5 for _ in range(c * r)]
         L.append(f"csc.istp {r} {c} {pat(ba, r, c)} {r2} {c2} {pat(bt, r2, c2)}")
     cases.append({"name": "istp_rand", "lines": L, "meta": {"kind": "csc-istp", "n": 5}})
+    G = guard_raw_cases(rng, thorough)
+    for q in range(0, len(G), 256):
+        cases.append({"name": f"istpraw{q // 256}", "lines": G[q:q + 256], "meta": {"kind": "csc-istp-raw", "n": 3}})
     return cases
 
 
@@ -262,7 +299,8 @@ def run(replay=None):
                        "scaling, AMD consistency on random rectangular patterns incl. empty rows/columns; storage level (the three CSC arrays, "
                        "not the dense view) for transpose_no_allocation / pre_mult_diagonal / post_mult_diagonal against the loop-level "
                        "Csc model: every pattern of every shape up to 3x3 and the random rectangular ones; is_transpose_pattern against its loop-level model "
-                       "(binary search included) on every pair of patterns with at most 4 cells (thorough: 2x3 too) and random near-miss pairs up to 5x5; "
+                       "(binary search included) on every pair of patterns with at most 4 cells (thorough: 2x3 too), random near-miss pairs up to 5x5 and raw-array "
+                       "arguments (one row index of a valid pattern replaced: duplicate, unsorted or moved entry, same nnz) for every pattern up to 3x3; "
                        "the sparse LDLt object array by array (etree, L_cols, L_nnz, filled L_ind/L_vals, D, return value, solve_inplace) against the "
                        "loop-level model SparseLdl on every upper pattern n<=5 (with and without zero pivot) and the random sparse ones; "
                        "permute_sparse_symmetric_matrix array by array incl. the returned slot map (Csc.permuteSym) on the same patterns x permutations")
